@@ -42,6 +42,10 @@ CLAIMED = {
    text="Bounded model checking (z3) on invoice skeletons with all prices/amounts symbolic. Quick: swapping the two lines of a document (with every combination of optional discounts, charges, advances, tax-included prices, both rounding rules) changes no line figure, no document total and no tax group (2-safety: the real calculate is run on both orders). Thorough adds: Invoice.Invert succeeds, negates every line total / tax amount / document total and twice restores them; removing included taxes yields payable = original total with tax with the residue in the rounding field - these relational queries are hard for the solver and whatever stays unknown is reported as not covered.",
    note="Assumes go/ssa faithful, z3 sound, C05 summaries. Outside: permutations of more than two rows; discounts/charges with explicit bases and explicit-quantity rate charges (where Invert is known to fail, DESIGN 8 #14, not yet re-found by a check).",
    ref="DESIGN.md 5 (C17)"),
+ "C09": dict(
+   text="Bounded model checking (z3) of signature verification logic: Header.Contains equals the seven-clause containment relation for every pattern of equal/different identifier, digest, stamps, links, tags, meta and notes (one-byte symbolic strings) and is monotone under additions; Envelope.Verify / VerifySignature accept iff a supplied key is the signer's and the current header contains the signed header (0-2 keys, either signer); cli.Verify - the single function behind the verify command, the bulk verify action and the HTTP endpoint - reports success iff the key is the signer's and the header was not changed after signing. JWS, parsing and validation are contract stubs in symbolic runs; counterexamples are replayed natively with real ES256 keys and real signed envelopes.",
+   note="Assumes the JWS contract (verification with the signing key returns the signed payload, any other key fails), go/ssa faithful, z3 sound. Outside: ES256/JOSE themselves, JSON/YAML parsing. Defects found and fixed: 9131962 (nil digest panic), 8d4173a (cli.Verify ignored the header).",
+   ref="DESIGN.md 5 (C09)"),
 }
 
 NA = {
